@@ -89,6 +89,20 @@ func (st *State) mapUpdate(m, k, v Val, pos token.Pos) {
 	had := sel(sel(d, mr), kt)
 	if len(st.frames) > 0 {
 		st.onMapInsert(st.top(), m, Val{T: mt.Key(), C: []string{kt}}, v, had, pos)
+		if c := e.contracts[e.curFn]; c != nil {
+			for _, r := range c.MapStores {
+				if strings.ReplaceAll(types.TypeString(mt, types.RelativeTo(e.P.TPkg)), " ", "") != r.Type {
+					continue
+				}
+				prev := st.mapGet(mt, mr, kt)
+				hadV := Val{T: types.Typ[types.Bool], C: []string{and(not(eq(mr, "0")), had)}}
+				// the clause may also name the locals of the function that executes the store
+				sc := st.specCtx(st.top(), "mapstore "+r.Type)
+				sc.old = st.frames[0].old
+				sc.vars["at"], sc.vars["value"], sc.vars["prev"], sc.vars["had"] = Val{T: mt.Key(), C: k.C}, v, prev, hadV
+				st.oblige("mapstore", r.Clause.Label, r.Clause.Props, e.evalClause(sc, r.Clause), pos)
+			}
+		}
 	}
 	l := st.arr(ln, "(Array Int Int)")
 	st.setArr(ln, "(Array Int Int)", store(l, mr, ite(had, sel(l, mr), fmt.Sprintf("(+ %s 1)", sel(l, mr)))))
@@ -701,6 +715,12 @@ func (st *State) builtinAppend(fr *Frame, in ssa.Instruction, args []Val, pos to
 		st.assume(fmt.Sprintf("(forall ((i Int)) (! (= (select %s i) (ite (and (<= %s i) (< i (+ %s %s))) (select (select %s %s) (+ %s (- i %s))) (ite (and (<= (+ %s %s) i) (< i (+ %s %s))) %s (select (select %s %s) i)))) :pattern ((select %s i))))",
 			newInner, resOff, resOff, s.C[2], a, s.C[0], s.C[1], resOff,
 			resOff, s.C[2], resOff, newLen, srcAt, a, resBase, newInner))
+		if !isString(add.T) {
+			// the same fact, found from the source side: every appended element is in the result (lets the solver
+			// produce the witness of "exists m :: result[m] == add[t]")
+			st.assume(fmt.Sprintf("(forall ((u Int)) (! (=> (and (<= %s u) (< u (+ %s %s))) (= (select %s (slot %s (+ %s (- u %s)))) (select (select %s %s) u))) :pattern ((select (select %s %s) u))))",
+				add.C[1], add.C[1], addLen, newInner, resOff, s.C[2], add.C[1], a, add.C[0], a, add.C[0]))
+		}
 		st.setArr(name, arr2Sort(c.Sort), store(a, resBase, newInner))
 	}
 	res := Val{T: s.T, C: []string{resBase, resOff, newLen, resCap}}
